@@ -9,8 +9,8 @@ READY_C10 = True
 READY_C11 = True
 TRANSLATORS = ['gen_bitpacking']
 COQ_PROPS_C09 = ['Properties_C09_theta']
-COQ_PROPS_C10 = []
-COQ_PROPS_C11 = []
+COQ_PROPS_C10 = ['Properties_C10_theta']
+COQ_PROPS_C11 = ['Properties_C11_theta']
 # reflexive obligations discharged by vm_compute on the translated source: 63 widths x 8 counts x {pack, unpack}
 EXTRA_OBLIGATIONS_C09 = {'Properties_C09_theta': 1008}
 TRUSTED = ['translator translators/gen_bitpacking.py (accepted grammar: *ptr / *ptr++ / values[i] (= | |=) expr; expr over << >> & static_cast<uint8_t|uint64_t>, '
